@@ -175,6 +175,20 @@ pub fn mutants<B: Backend>(purpose: Purp, tok: &str, msg_len: usize, aad: &[u8],
         let b = [&body[..body.len() - tail], &vec![0u8; ext][..], &body[body.len() - tail..]].concat();
         push("extend-middle", &b, &footer, aad);
     }
+    // 5. text-level: further dot-separated segments after the footer, repeated parts
+    {
+        let fb64 = crate::b64::encode(&footer);
+        let extra: Vec<String> = if footer.is_empty() {
+            vec!["..x".into(), "..".into(), "..AAAA".into(), format!("..{}", crate::b64::encode(b"ftr")), ".AAAA.AAAA".into(), format!(".{}", crate::b64::encode(&body))]
+        } else {
+            vec![".x".into(), ".".into(), ".AAAA".into(), format!(".{fb64}"), "..".into(), format!(".{}", crate::b64::encode(&body)), format!(".{fb64}.{fb64}")]
+        };
+        for e in extra {
+            out.push(Mutant { class: "extra-segment", token: format!("{tok}{e}"), aad: aad.to_vec() });
+        }
+        out.push(Mutant { class: "token-twice", token: format!("{tok}{tok}"), aad: aad.to_vec() });
+        out.push(Mutant { class: "token-twice", token: format!("{tok}.{tok}"), aad: aad.to_vec() });
+    }
     out
 }
 
@@ -248,15 +262,36 @@ fn backend<B: Backend>(opts: &Opts, rep: &mut Report) {
                         expect_err::<B>(rep, &other, "other-key", &tok, aad, "unrelated key");
                         match &kp {
                             KeyPair::Local(_) => {
+                                // keys differing from the right one in a single bit, one per byte position, each
+                                // tried immediately after the right key has opened the token on this thread
                                 let raw = kp.raw().0;
-                                for bit in [0usize, 7, 128, 255] {
+                                for byte in 0..raw.len() {
                                     let mut r2 = raw.clone();
-                                    r2[bit / 8] ^= 1 << (bit % 8);
+                                    r2[byte] ^= 1 << ((byte + len) % 8);
                                     let k2 = KeyPair::<B>::from_raw(Purp::Local, &r2).unwrap();
-                                    expect_err::<B>(rep, &k2, "one-bit-key", &tok, aad, "key differing in one bit");
+                                    if !matches!(guard(|| kp.open(&tok, aad)), Ok(Ok(_))) {
+                                        rep.violation(&format!("C02|{}|local|own-token-rejected-in-sequence", B::NAME), json!({"token": tok}));
+                                    }
+                                    expect_err::<B>(rep, &k2, "one-bit-key", &tok, aad, "key differing in one bit, right after the right key opened the token");
                                 }
                             }
-                            KeyPair::Public(..) => {}
+                            KeyPair::Public(..) => {
+                                // related key pairs: secret material differing in one byte from the signer's
+                                let raw = kp.raw().0;
+                                if B::VER != 1 {
+                                    for byte in (0..32.min(raw.len())).step_by(if B::VER == 3 { 5 } else { 3 }) {
+                                        let mut r2 = raw[..if B::VER == 3 { 48 } else { 32 }].to_vec();
+                                        let at = if B::VER == 3 { 47 - byte } else { byte };
+                                        r2[at] ^= 1 << (byte % 8);
+                                        let r2 = if B::VER == 3 { r2 } else { [&r2[..], &ed25519_dalek::SigningKey::from_bytes(r2[..32].try_into().unwrap()).verifying_key().to_bytes()[..]].concat() };
+                                        let Ok(k2) = KeyPair::<B>::from_raw(Purp::Public, &r2) else { continue };
+                                        if !matches!(guard(|| kp.open(&tok, aad)), Ok(Ok(_))) {
+                                            rep.violation(&format!("C02|{}|public|own-token-rejected-in-sequence", B::NAME), json!({"token": tok}));
+                                        }
+                                        expect_err::<B>(rep, &k2, "related-key", &tok, aad, "public key of a secret differing in one bit, right after the right key verified the token");
+                                    }
+                                }
+                            }
                         }
                         // versions without implicit assertions must refuse a non-empty one
                         if !B::HAS_AAD {
@@ -521,7 +556,7 @@ pub fn run(opts: &Opts) {
     pairs!(V1 => V3Lc, V3Lc => V1, V2 => V4Na, V4Na => V2, V3Lc => V4Na, V4Na => V3Lc, V3 => V4Na, V4 => V3Lc, V3Lc => V4, V4Na => V3, V3Lc => V2, V4Na => V1);
     rep.set(
         "rule",
-        json!("fault enumeration: for sealed tokens (payload 0/1/17/64 B x footer x assertion) every single-bit flip of every body/footer/assertion byte, footer/assertion add/remove/replace/swap, boundary shifts of 1..8 bytes between message, footer and assertion, every truncation, extensions, header relabels, other keys; a case is (mutated token, assertion, key) and is non-trivial when it differs from what was sealed; distinct = distinct such triples"),
+        json!("fault enumeration: for sealed tokens (payload 0/1/17/64 B x footer x assertion) every single-bit flip of every body/footer/assertion byte, footer/assertion add/remove/replace/swap, boundary shifts of 1..8 bytes between message, footer and assertion, every truncation, extensions, further dot-separated segments after the footer and doubled tokens, header relabels, other keys, for local keys a one-bit-different key per key byte (public: key pairs of one-bit-different secrets), each tried immediately after the right key has opened the token on the same thread; a case is (mutated token, assertion, key) and is non-trivial when it differs from what was sealed; distinct = distinct such triples"),
     );
     rep.finish(opts);
 }
